@@ -45,8 +45,8 @@ SPEC = {
              "Non-trivial = at least one optional field left out and at least one present, or a string of a special class, or an "
              "HCL-only expression; distinct = hash of the whole description."),
     "floors": {
-        "TestEquivalence/kind_http": 0.4, "TestEquivalence/kind_grpc": 0.25,
-        "TestEquivalence/source_file_csv": 0.3, "TestEquivalence/source_file_json": 0.15, "TestEquivalence/source_variables": 0.3,
+        "TestEquivalence/kind_http": 0.29, "TestEquivalence/kind_grpc": 0.19,
+        "TestEquivalence/source_file_csv": 0.22, "TestEquivalence/source_file_json": 0.15, "TestEquivalence/source_variables": 0.17,
         "TestEquivalence/variables_rand_func": 0.03, "TestEquivalence/body_absent": 0.2, "TestEquivalence/sources_none": 0.1,
         "TestEquivalence/yaml_empty_sections": 0.15,
         "TestEquivalence/post_var_jsonpath": 0.1, "TestEquivalence/post_var_xpath": 0.1, "TestEquivalence/post_var_header": 0.1,
@@ -62,7 +62,7 @@ SPEC = {
         "TestEquivalence/key_yaml_special": 0.15, "TestEquivalence/name_yaml_special": 0.1,
         "TestEquivalence/hcl_block_order_permuted": 0.5,
         "TestEquivalence/str_line_starts_with_tab": 0.25, "TestEquivalence/str_cr": 0.15, "TestEquivalence/str_several_trailing_newlines": 0.15,
-        "TestEquivalence/yaml_hand_scalar": 0.6, "TestEquivalence/yaml_literal": 0.4, "TestEquivalence/yaml_folded": 0.3,
+        "TestEquivalence/yaml_hand_scalar": 0.42, "TestEquivalence/yaml_literal": 0.4, "TestEquivalence/yaml_folded": 0.3,
         "TestEquivalence/yaml_block_line_starts_with_tab": 0.08, "TestEquivalence/yaml_block_first_line_starts_with_tab": 0.04,
         "TestEquivalence/yaml_block_line_starts_with_space": 0.1, "TestEquivalence/yaml_block_trailing_blanks": 0.06,
         "TestEquivalence/yaml_block_hash": 0.04, "TestEquivalence/yaml_block_colon_space": 0.1,
